@@ -1311,11 +1311,11 @@ theorem normGen_fix (tv : Str) (htv : tv.map hu = tv) (m : Forest) :
 /-- **C04 (second generation, partial)**: saving the loaded document writes, part by part, exactly the infoset of
     the first package (`canonT` of the tree that was written = what the reference parser returns for it), with the
     generator still named exactly once; settings.xml is written the second time iff it was the first time.
-    Hypotheses: `SecsOK` (no section consists of character data only), the library version string has no filtered
+    Hypotheses: `SecsOK` (no section consists of character data only), `noSecAttrs`, the library version string has no filtered
     character, and — C10's subject — the second save selects for each part the automatic styles that were loaded
     from it (`lsec uc`, `lsec us`). -/
 theorem second_generation_partial (tv : Str) (d : Doc) (uc us : Forest) (hs : SecsOK d uc us = true)
-    (htv : tv.map hu = tv) :
+    (hsa : noSecAttrs d = true) (htv : tv.map hu = tv) :
     contentTree (expected tv d uc us) (lsec uc) = canonT (contentTree d uc) ∧
     stylesTree (expected tv d uc us) (lsec us) = canonT (stylesTree d us) ∧
     metaTree tv (expected tv d uc us) = canonT (metaTree tv d) ∧
@@ -1323,18 +1323,23 @@ theorem second_generation_partial (tv : Str) (d : Doc) (uc us : Forest) (hs : Se
     writesSettings (expected tv d uc us) = writesSettings d := by
   simp only [SecsOK, Bool.and_eq_true] at hs
   obtain ⟨⟨⟨⟨⟨⟨⟨o1, o2⟩, o3⟩, o4⟩, o5⟩, o6⟩, o7⟩, o8⟩ := hs
+  have he : noSecAttrs (expected tv d uc us) = true := rfl
   refine ⟨?_, ?_, ?_, ?_, ?_⟩
-  · simp only [contentTree, canonT, expected, ver_stable]
+  · simp only [contentTree, secEl_eq _ he, ifKids_eq _ he, secEl_eq d hsa, ifKids_eq d hsa, autoEl_eq]
+    simp only [canonT, expected, ver_stable]
     rw [ifKids_canon _ _ _ o2, ifKids_canon _ _ _ o3, secEl_canon _ _ _ o4, secEl_canon _ _ _ o5, canonTF_nil]
-  · simp only [stylesTree, canonT, expected, ver_stable]
+  · simp only [stylesTree, secEl_eq _ he, ifKids_eq _ he, secEl_eq d hsa, ifKids_eq d hsa, autoEl_eq]
+    simp only [canonT, expected, ver_stable]
     rw [ifKids_canon _ _ _ o3, secEl_canon _ _ _ o6, secEl_canon _ _ _ o7]
     have := ifKids_canon .master d.master .nil o8
     simp only [appF_nil_right, canonTF_nil] at this
     rw [this]
-  · simp only [metaTree, canonT, expected, ver_stable]
+  · simp only [metaTree, secEl_eq _ he, secEl_eq d hsa]
+    simp only [canonT, expected, ver_stable]
     rw [normGen_fix tv htv]
     simp [secEl0, canonTF_cons_elem, huAttrsQ, canonTF_nil]
-  · simp only [settingsTree, canonT, expected, ver_stable]
+  · simp only [settingsTree, secEl_eq _ he, secEl_eq d hsa]
+    simp only [canonT, expected, ver_stable]
     rw [secEl_canon _ _ _ o1, canonTF_nil]
   · simp only [expected, writesSettings]
     rw [lsec_secOK _ o1]
@@ -1349,12 +1354,12 @@ theorem second_generation_partial (tv : Str) (d : Doc) (uc us : Forest) (hs : Se
 
 /-- … hence both generations have the same infoset (the reference parser returns the same tree for both) -/
 theorem second_generation_infoset (tbl : NsTable) (tv : Str) (d : Doc) (uc us : Forest)
-    (hx : XmlOK tbl tv d uc us) (hs : SecsOK d uc us = true) (htv : tv.map hu = tv) :
+    (hx : XmlOK tbl tv d uc us) (hs : SecsOK d uc us = true) (hsa : noSecAttrs d = true) (htv : tv.map hu = tv) :
     parseDoc (render tbl (contentTree (expected tv d uc us) (lsec uc))) = parseDoc (render tbl (contentTree d uc)) ∧
     parseDoc (render tbl (stylesTree (expected tv d uc us) (lsec us))) = parseDoc (render tbl (stylesTree d us)) ∧
     parseDoc (render tbl (metaTree tv (expected tv d uc us))) = parseDoc (render tbl (metaTree tv d)) ∧
     parseDoc (render tbl (settingsTree (expected tv d uc us))) = parseDoc (render tbl (settingsTree d)) := by
-  obtain ⟨e1, e2, e3, e4, _⟩ := second_generation_partial tv d uc us hs htv
+  obtain ⟨e1, e2, e3, e4, _⟩ := second_generation_partial tv d uc us hs hsa htv
   have key : ∀ (q : QName) (a : List (QName × Str)) (k : Forest), TreeOK tbl (.elem q a k) →
       parseDoc (render tbl (canonT (.elem q a k))) = parseDoc (render tbl (.elem q a k)) := by
     intro q a k h
@@ -1403,15 +1408,15 @@ def sObj1Styles : Str := [79, 98, 106, 101, 99, 116, 32, 49, 47] ++ sStylesXml
 def fontsPart : Node :=
   .elem qDocStyles [] (.cons (.elem qFontFace [] (.cons (exE 102) .nil)) (.cons (.elem qStyles [] (.cons (exE 115) .nil)) .nil))
 
-/-- **known finding KF-C04-4 / KF-C05-4, proved on the model**: `doc._parsing == "styles.xml"` is false for the
-    member "Object 1/styles.xml", so the font declarations of a sub-document are skipped in styles.xml too, while the
-    same part loaded as the top document's styles.xml keeps them. -/
-theorem finding_subdocument_fonts :
-    stylesPartOf sObj1Styles = false ∧
+/-- (was known finding KF-C04-4 / KF-C05-4, repaired in 934baed) the base name of `doc._parsing` is compared, so the
+    font declarations of a sub-document's styles.xml are loaded like those of the top document, while
+    "Object 1/content.xml" still skips them -/
+theorem subdocument_fonts_loaded :
+    stylesPartOf sObj1Styles = true ∧
     (loadPart (stylesPartOf sObj1Styles) {} (evN fontsPart)).map (fun l => (topNames l.doc.fontFace, topNames l.doc.styles)) =
-      some ([], [exQ 115]) ∧
-    (loadPart (stylesPartOf sStylesXml) {} (evN fontsPart)).map (fun l => (topNames l.doc.fontFace, topNames l.doc.styles)) =
-      some ([exQ 102], [exQ 115]) := by decide
+      some ([exQ 102], [exQ 115]) ∧
+    (loadPart (stylesPartOf ([79, 98, 106, 101, 99, 116, 32, 49, 47] ++ sContentXml)) {} (evN fontsPart)).map
+      (fun l => (topNames l.doc.fontFace, topNames l.doc.styles)) = some ([], [exQ 115]) := by decide
 
 /-! ### the hypotheses are satisfiable -/
 
@@ -1485,8 +1490,8 @@ end
 /-- non-vacuity: all hypotheses of `load_save_partial`, `second_generation_partial` hold for a document with mixed
     content and white-space-only text in the body, a common style, the library's generator string "T" -/
 example : XmlOK exTbl [84] exDoc .nil .nil ∧ LoadOK [84] exDoc .nil .nil = true ∧ SecsOK exDoc .nil .nil = true ∧
-    ([84] : Str).map hu = [84] := by
-  refine ⟨⟨exTbl_ok, ?_, ?_, ?_, ?_, ?_⟩, by decide, by decide, by decide⟩
+    noSecAttrs exDoc = true ∧ ([84] : Str).map hu = [84] := by
+  refine ⟨⟨exTbl_ok, ?_, ?_, ?_, ?_, ?_⟩, by decide, by decide, by decide, by decide⟩
   · intro e he
     simp only [exTbl, List.mem_cons, List.not_mem_nil, or_false] at he
     rcases he with rfl | rfl | rfl <;> decide
